@@ -372,6 +372,35 @@ CLAIMED = {
              "(previous call arguments) are not modelled. Known finding: an expression not reached in the re-run gets the item's "
              "final value.",
         design="§7 C27"),
+
+    "C09": dict(
+        category="proof",
+        technique="Lean 4 proof (invariant + induction over request histories) over a model of the JSON session's command layer on top of the machine model M4 + reftest-json-session / framed `garden json` correspondence",
+        text="Proved for histories of any length over the command vocabulary regenerated from Command::from_string: with a "
+             "non-empty call stack every request, in every state, hits no session-layer panic (json_session.rs / commands.rs / "
+             "env.rs sites are explicit panic outcomes of the model); a request that ends ok produces exactly one response and "
+             "preserves the invariant; hence #responses = #requests, in order (one_response_per_request_partial, "
+             "session_run_partial, stops_only_through_evaluator). ~160 generated request histories per quick run (every command "
+             "in idle / errored-at-toplevel / errored-in-call / interrupted states) are replayed through reftest-json-session "
+             "and the real framed `garden json` (liveness probe) and compared with the model response by response.",
+        note=TB + "PARTIAL: evaluator panics are excluded by hypothesis (C02's discipline), and :skip / :replace do not preserve "
+             "that discipline on the code as it stands (machine-checked witnesses; known findings C09/skip-value-discipline, "
+             "C09/replace-value-discipline). Running user code is fuel-bounded in the model. Response ids are not echoed by some "
+             "paths (observation).",
+        design="§7 C09"),
+    "C10": dict(
+        category="proof",
+        technique="Lean 4 proof of a state equality (abort st = the fresh session with the same definitions and toplevel variables) over the session model + fresh-session oracle",
+        text="Proved: after :abort the state is clean (one frame, no pending entries, value stack = the base Unit, one binding "
+             "block: abort_clean) and EQUAL to the fresh session holding the same definitions and toplevel variables, up to "
+             "ticks/flags/limits (abort_equiv_fresh), so any later request gets the same responses (abort_same_responses) and "
+             "nothing of the aborted evaluation is reachable (nothing_leftover). 60 abort experiments per quick run (stop inside "
+             "nested calls/loops/blocks by error or interrupt, :abort, ~900 probes) are compared with a fresh real session fed "
+             "the same definitions and with the model.",
+        note=TB + "Needs the hypothesis BottomOK (the bottom frame is the toplevel frame and its oldest value is Unit); its "
+             "preservation along histories depends on the evaluator discipline (C02) and is not proved. Holds with the "
+             "pop_to_toplevel fix (pending toplevel expressions are dropped).",
+        design="§7 C10"),
 }
 
 NOT_YET = {}
